@@ -1678,9 +1678,7 @@ class H2Connection:
             # remote peer now believes exists.
             if (self._stream_closed_by(frame.stream_id) ==
                     StreamClosedBy.SEND_RST_STREAM):
-                f = RstStreamFrame(frame.promised_stream_id)
-                f.error_code = ErrorCodes.REFUSED_STREAM
-                return [f], events
+                return self._refuse_pushed_stream(frame), events
 
             raise ProtocolError("Attempted to push on closed stream.")
 
@@ -1702,9 +1700,7 @@ class H2Connection:
             # The parent stream was reset by us, so we presume that
             # PUSH_PROMISE was in flight when we reset the parent stream.
             # So we just reset the new stream.
-            f = RstStreamFrame(frame.promised_stream_id)
-            f.error_code = ErrorCodes.REFUSED_STREAM
-            return [f], events
+            return self._refuse_pushed_stream(frame), events
 
         new_stream = self._begin_new_stream(
             frame.promised_stream_id, AllowedStreamIDs.EVEN
@@ -1713,6 +1709,26 @@ class H2Connection:
         new_stream.remotely_pushed(pushed_headers)
 
         return frames, events + stream_events
+
+    def _refuse_pushed_stream(self, frame):
+        """
+        Refuse the stream promised by a PUSH_PROMISE frame. Returns the frames
+        to send.
+        """
+        promised_stream_id = frame.promised_stream_id
+
+        # The peer may already have sent frames on the promised stream. Record
+        # that we reset it, so that they are dealt with like frames on any
+        # other stream we have reset rather than as a connection error.
+        if promised_stream_id > self.highest_inbound_stream_id:
+            self.highest_inbound_stream_id = promised_stream_id
+            self._closed_streams[promised_stream_id] = (
+                StreamClosedBy.SEND_RST_STREAM
+            )
+
+        f = RstStreamFrame(promised_stream_id)
+        f.error_code = ErrorCodes.REFUSED_STREAM
+        return [f]
 
     def _handle_data_on_closed_stream(self, events, exc, frame):
         # This stream is already closed - and yet we received a DATA frame.
